@@ -48,7 +48,7 @@ var paths = map[string]authsim.Set{
 }
 var pathList = []string{"/v2/", "/v2/a/manifests/x", "/v2/a/manifests/x", "/v2/a/blobs/uploads/", "/v2/b/manifests/x", "/v2/_catalog", "/v2/a/blobs/mount-from-b"}
 
-var hosts = []string{"r1.example", "r2.example", "r3.example"}
+var hosts = []string{"r1.example", "r1.example:8443", "r3.example"} // two share a host name and differ in port
 var realms = []string{"t1.example", "t2.example", "t3.example"}
 
 var replies = []string{"good", "malformed", "notoken", "400", "401", "403", "post404", "500", "302", "307"}
